@@ -288,12 +288,22 @@ def stereo_mol_graph_to_rdmol(
                 (2, 0, 3, 1, 4): 20,
                 }
 
+                # all equivalent spellings of the arrangement (rotations of
+                # the bipyramid), not only the one stored in the descriptor
+                rd_id_orders = {
+                    tuple([map_num_idx_dict[a] for a in spelling[1::]])
+                    for spelling in a_stereo.__class__(
+                        atoms_order, -1
+                    )._perm_atoms()
+                }
+                assert rd_id_order in rd_id_orders
+
                 for perm, val in atom_order_permutation_dict.items():
 
                     rd_nbr_perm = tuple([rd_nbr_order[i] for i in perm])
                     rd_nbr_perm = tuple([rd_nbr_perm[i] for i in (0, 4, 1, 2, 3)])
 
-                    if rd_id_order == rd_nbr_perm:
+                    if rd_nbr_perm in rd_id_orders:
                         rd_atom.SetUnsignedProp("_chiralPermutation", val)
                         break
 
